@@ -116,8 +116,13 @@ func genMsg(r *Rng) *GMsg {
 		}
 		if r.Bool() {
 			n := uint32(r.Intn(1000000000))
-			if r.Intn(8) == 0 {
+			switch r.Intn(8) {
+			case 0:
 				n = uint32(r.Next())
+			case 1:
+				n = 0 // present but zero
+			case 2:
+				n = []uint32{1, 999999999, 1 << 31}[r.Intn(3)]
 			}
 			t.Nanos = &n
 		}
